@@ -383,7 +383,7 @@ def slow_consumer(chk):
     t0 = time.time()
     seen_row_early = None
     while time.time() - t0 < 6.0:      # nobody reads p.stdout during this time
-        rows = implrun.index_rows(root)
+        rows = implrun.index_rows(root, while_running=True)
         if rows:
             vd = os.path.join(root, "cond-out", "e.task.%d" % rows[0][1], "stdout.log")
             size = os.path.getsize(vd) if os.path.exists(vd) else -1
@@ -432,7 +432,7 @@ def background_writer(chk, prop="C06"):
     first_seen = None
     t0 = time.time()
     while time.time() - t0 < 15 and p.poll() is None:
-        rows = implrun.index_rows(root)
+        rows = implrun.index_rows(root, while_running=True)
         if rows and first_seen is None:
             logp = os.path.join(root, "cond-out", "e.task.%d" % rows[0][1], "stdout.log")
             first_seen = (round(time.time() - t0, 2), open(logp, "rb").read() if os.path.exists(logp) else None)
